@@ -41,7 +41,9 @@ def gen_case(rng, tier):
             ops.append(["R", rng.randint(-8, 8) if rng.random() < 0.15 else rng.randint(-3, 2)])
         else:
             ops.append(["C"])
-    return dict(pareto=pareto, cap=cap, sim=sim, ops=ops, nobj=nobj)
+    # the keys are small integers times a scale: orders and ties are the same at every magnitude (near-ties of magnitude
+    # 1e-10 are no ties)
+    return dict(pareto=pareto, cap=cap, sim=sim, ops=ops, nobj=nobj, scale=rng.choice([1.0, 1.0, 1.0, 1e-10, 1e-10, 1e9]))
 
 
 def exhaustive_cases():
@@ -96,8 +98,10 @@ def impl_main(payload):
         def __init__(self, tag):
             self.tag, self.fitness, self.k2, self.stamp = tag, None, None, -1
 
+    sc = [1.0]
+
     def fl(k):
-        return float("nan") if k is None else (float("inf") if k == INF else (float("-inf") if k == -INF else float(k)))
+        return float("nan") if k is None else (float("inf") if k == INF else (float("-inf") if k == -INF else float(k) * sc[0]))
 
     def enc(k):
         if k is None or (isinstance(k, float) and math.isnan(k)):
@@ -106,7 +110,7 @@ def impl_main(payload):
             return [1, INF]
         if k == float("-inf"):
             return [1, -INF]
-        return [1, int(k)]
+        return [1, int(round(k / sc[0]))]
 
     def dominates(a, b):
         return a[0] <= b[0] and a[1] <= b[1] and (a[0] != b[0] or a[1] != b[1])
@@ -114,6 +118,7 @@ def impl_main(payload):
     results = []
     for c in payload["cases"]:
         m = c["sim"]
+        sc[0] = c.get("scale", 1.0)
         simf = (lambda a, b: a.tag % m == b.tag % m) if m else None
         if c["pareto"]:
             h = ParetoFront(secondary_key=lambda x: x.k2, similarity_function=simf)
